@@ -206,6 +206,9 @@ def scope(res, pid, rng, tier):
             i = rng.randint(3, len(c))
             bad.append(c[:i] + rng.choice(ALPHA) + c[i:])                     # an extra alphabet character
     bad += ["", "$9$", "$9$abc", "$9$Qnet", "abcd", "$9$abcd\n", "$9$QnetF", "$9$a,bcdef", "$9$_net9pBcSe8"]
+    # a valid string inside quotes, brackets or blanks is not a valid string
+    for plain, c in crypts[:4]:
+        bad += ['"' + c, c + '"', '"' + c + '"', "'" + c + "'", " " + c, c + " ", "[" + c + "]", c + ";", "\t" + c]
     # characters that are letters / digits for Unicode-aware or case-insensitive matching but not in the alphabet, at every kind of position
     # (salt character, filler, inside a group)
     for plain, c in crypts[:3] + rng.sample(crypts, min(len(crypts), 6)):
